@@ -20,7 +20,7 @@ VARIABLES keys,      \* server: sequence of ticket key ids, first seals
           nextKey,   \* fresh key ids
           ssuites,   \* server: explicitly configured suites (set)
           csuites,   \* client: offered suites (set)
-          cauth,     \* server: "none" | "request" | "require"
+          cauth,     \* server: "none" | "request" | "requireany" | "verifyifgiven" | "require" (= require and verify)
           disabled,  \* server: SessionTicketsDisabled
           ccert,     \* client presents a certificate when asked
           cvers,     \* highest version the client offers (the server supports all): the negotiated version
@@ -44,18 +44,19 @@ Pref == <<"CBC", "GCM">>
 \* (the AEAD suite needs the newest version)
 Common == SelectSeq(Pref, LAMBDA x : x \in csuites /\ x \in ssuites /\ (x # "GCM" \/ cvers = 12))
 
+NeedCert == {"requireany", "require"}        \* policies under which a session without a client certificate is forbidden
 \* the resumption gate of the statement
 Gate(t) == /\ ~disabled /\ ~t.bad
            /\ InSeq(keys, t.key)
            /\ t.vers = cvers                          \* never across protocol versions
            /\ t.suite \in csuites /\ t.suite \in ssuites
-           /\ ~(cauth = "require" /\ ~t.hascert)
+           /\ ~(cauth \in NeedCert /\ ~t.hascert)
            /\ ~(cauth = "none" /\ t.hascert)
 
 \* one connection to server name n
 Connect(n) ==
   /\ Common # <<>>                                   \* (no common suite is C06's subject)
-  /\ (cauth = "require" => ccert)                    \* (policy failures are C06's subject)
+  /\ (cauth \in NeedCert => ccert)                   \* (policy failures are C06's subject)
   /\ LET l == Lookup(n)
          offered == l.found
          resume == offered /\ Gate(l.t)
@@ -108,7 +109,7 @@ Next == /\ Len(hist) < MaxOps
            \/ Allowed("rotate") /\ \E k \in BOOLEAN : Rotate(k)
            \/ Allowed("ssuites") /\ \E x \in NonEmpty : SetSSuites(x)
            \/ Allowed("csuites") /\ \E x \in NonEmpty : SetCSuites(x)
-           \/ Allowed("auth") /\ \E a \in {"none", "request", "require"}, cc \in BOOLEAN : SetAuth(a, cc)
+           \/ Allowed("auth") /\ \E a \in {"none", "request", "requireany", "verifyifgiven", "require"}, cc \in BOOLEAN : SetAuth(a, cc)
            \/ Allowed("disabled") /\ \E b \in BOOLEAN : SetDisabled(b)
            \/ Allowed("vers") /\ \E v \in Versions : SetVers(v)
            \/ Allowed("tamper") /\ \E n \in Names, r \in {"keyname", "iv", "state", "mac", "truncate", "extend"} : Tamper(n, r)
